@@ -297,6 +297,38 @@ func (g *gen) selectionSet(def *ast.Definition, depth int) string {
 	return "{ " + strings.Join(parts, " ") + " }"
 }
 
+// fieldDirective occasionally applies a custom executable directive (location FIELD) declared by
+// the schema, with its String arguments filled in.
+func (g *gen) fieldDirective() string {
+	var names []string
+	for n, d := range g.s.Directives {
+		if n == "skip" || n == "include" || n == "defer" || n == "deprecated" {
+			continue
+		}
+		for _, l := range d.Locations {
+			if l == ast.LocationField {
+				names = append(names, n)
+			}
+		}
+	}
+	if len(names) == 0 || !g.chance(0.12) {
+		return ""
+	}
+	sort.Strings(names)
+	d := g.s.Directives[names[g.r.Intn(len(names))]]
+	var args []string
+	for _, a := range d.Arguments {
+		if a.Type.Name() == "String" && a.Type.Elem == nil {
+			args = append(args, a.Name+": \"t"+strconv.Itoa(g.r.Intn(3))+"\"")
+		}
+	}
+	g.feat["field_directive"]++
+	if len(args) == 0 {
+		return " @" + d.Name
+	}
+	return " @" + d.Name + "(" + strings.Join(args, ", ") + ")"
+}
+
 func isComposite(d *ast.Definition) bool {
 	return d.Kind == ast.Object || d.Kind == ast.Interface || d.Kind == ast.Union
 }
@@ -366,7 +398,7 @@ func (g *gen) field(def *ast.Definition, depth int) string {
 		alias = "x" + strconv.Itoa(g.r.Intn(2)) + "_" + f.Name + ": "
 		g.feat["alias"]++
 	}
-	out := alias + f.Name + argText + g.boolDirective()
+	out := alias + f.Name + argText + g.boolDirective() + g.fieldDirective()
 	ft := g.s.Types[f.Type.Name()]
 	if ft != nil && isComposite(ft) {
 		out += " " + g.selectionSet(ft, depth+1)
